@@ -69,11 +69,18 @@ def main() -> int:
                     f.prop = prop
                 rr.check_floor()
                 results.append(rr)
-            if not args.no_selftest and not os.environ.get("VERIF_NO_SELFTEST"):
+            # the checker self-test judges the *rules*; it only makes sense on a tree on
+            # which they currently pass (a violation found above is reported as such)
+            if (
+                not args.no_selftest
+                and not os.environ.get("VERIF_NO_SELFTEST")
+                and not any(rr.findings for rr in results)
+            ):
                 from selftest import run_selftest
 
                 st = run_selftest(prop, seed)
-                extra["selftest"] = st
+                extra["selftest"] = {k: v for k, v in st.items() if k != "results"}
+                extra["selftest"]["sample_results"] = st["results"][:6]
                 if st.get("failures"):
                     raise AnalysisError(
                         "checker self-test failed: " + "; ".join(st["failures"][:5])
